@@ -374,6 +374,8 @@ def server_monitor(case, out):
             return None, "client %d was closed by libuv but its socket shows no EOF/reset (%s)" % (c, s)
         if c == pending and s != "P":
             return None, "client %d is held unclaimed but its socket is not open and idle (%s)" % (c, s)
+    if len(sec) > 6 and sec[6] and sec[6] != "0,0":
+        return None, "all handles closed and the loop drained, but uv_loop_alive(),uv_loop_close() = %s" % sec[6]
     server_closed = "C" in case.split(";")[1] or "C" in behs
     if not server_closed and pending is None and bits and bits[-1] == "0" and ops.split()[-1] == "R":
         waiting = [c for c, s in enumerate(states) if s == "P" and c not in seen]
@@ -391,6 +393,9 @@ def ipc_monitor(case, out):
         if o[0] == "M":
             kinds += [KIND_CODE[k] for k in o[1:21]]
     toks = out.split(";")[0].split()
+    tail = [v.strip() for v in out.split(";")]
+    if len(tail) > 6 and tail[6] and tail[6] != "0,0":
+        return None, "all handles closed and the loop drained, but uv_loop_alive(),uv_loop_close() = %s" % tail[6]
     queue, nxt = [], 0
     i = 0
     while i < len(toks):
@@ -450,12 +455,35 @@ def connect_monitor(case, out):
     kind, ops, behs, script = split_case(case)
     toks = out.split(";")[0].split()
     sub, cbs, pending, overlapped, late = {}, {}, [], set(), set()
+    n_ok, n_cb, last_u = 0, 0, None
     for i, t in enumerate(toks):
+        if t[0] == "q":
+            # loop->active_reqs.count must be: connects accepted with 0 minus callbacks made
+            if int(t[1:]) != n_ok - n_cb:
+                if last_u is not None and last_u[1] != 0 and i > 0 and toks[i - 1][0] == "u":
+                    return None, "connect call for request %d returned %d but a request stays registered " \
+                                 "(active_reqs.count = %s, %d accepted and not called back)" \
+                                 % (last_u[0], last_u[1], t[1:], n_ok - n_cb)
+                return None, "active_reqs.count = %s with %d connects accepted and not yet called back" \
+                    % (t[1:], n_ok - n_cb)
+            continue
+        if t[0] == "z":
+            alive, rc = [int(v) for v in t[1:].split(",")]
+            lost = [r for r in overlapped if not cbs.get(r)] if not PIPE_CONNECT_EALREADY else []
+            if (alive, rc) != (0, 0):
+                why = "every handle closed and the loop drained, but uv_loop_alive() = %d and uv_loop_close() = %d" \
+                      % (alive, rc)
+                if lost:
+                    return K_LOST, why + " (request %d was overwritten by a second uv_pipe_connect)" % lost[0]
+                return None, why
+            continue
         if t[0] == "u":
             r, ret = t[1:].split(":")
             r, ret = int(r), int(ret)
             sub[r] = ret
+            last_u = (r, ret)
             if ret == 0:
+                n_ok += 1
                 if pending and kind == "p":
                     overlapped.update(pending)
                     late.add(r)
@@ -464,9 +492,11 @@ def connect_monitor(case, out):
             r, st = t[1:].split(":")
             r, st = int(r), int(st)
             cbs.setdefault(r, []).append(st)
+            n_cb += 1
             if r in pending:
                 pending.remove(r)
-            if st == -125 and (i + 1 >= len(toks) or not (toks[i + 1] == "x" or toks[i + 1].endswith(":-125"))):
+            nxt = next((v for v in toks[i + 1:] if v[0] not in "qz"), "")
+            if st == -125 and not (nxt == "x" or nxt.endswith(":-125")):
                 return None, "request %d cancelled (UV_ECANCELED) although the handle was not being destroyed" % r
         elif t[0] == "x":
             live = [r for r in pending if r not in overlapped or PIPE_CONNECT_EALREADY]
